@@ -2,16 +2,58 @@
    Only statements, each closed by `exact`, with Print Assumptions beneath.
    Model: Model/Parser.v; proofs: Proofs/ParserProofsReject.v (and the C04 proofs for the tolerated cases).
    Status: the per-site rejection theorems and the tolerated irregularities are proved in full.  The global
-   statement "every proper prefix of every well-formed document is an error" is NOT proved as one theorem
-   (it needs an extension-monotonicity induction over the whole parser); what is proved is its mechanism: at the
-   end of the buffer every loop condition is false and the sub-parser then called fails (the C13_end_of_buffer theorems);
-   and the check explores every proper prefix of every generated document exhaustively on the C and on the model. *)
+   statement "every proper prefix of every well-formed document that ends inside header / string table / leading
+   PIs / root element is an error" is proved (the C13_truncated_document_refused theorems), by a second structural induction
+   over the document (Proofs/ParserProofsPrefix{,2,3,4}.v) next to the one of C04, in full
+   (C13_truncated_document_refused).  The check still explores every proper prefix of every generated document on
+   the C and on the model. *)
 From Coq Require Import String.
-From Coq Require Import List NArith.
+From Coq Require Import List NArith Bool.
 From Wbxml Require Import Model.Codec Model.TablesDefs Gen.TablesData Model.Parser Model.Spec
-     Proofs.ParserProofsBase Proofs.ParserProofsStr Proofs.ParserProofsReject Proofs.ParserProofsDoc.
+     Proofs.ParserProofsBase Proofs.ParserProofsStr Proofs.ParserProofsReject Proofs.ParserProofsDoc
+     Proofs.ParserProofsTyped Proofs.ParserProofsPrefix Proofs.ParserProofsPrefix4 Proofs.ParserProofsWv.
 Import ListNotations.
 Local Open Scope N_scope.
+
+(* ---- THE GLOBAL STATEMENT — FULL, unconditional ---- *)
+(* upto_root d = header ++ string table ++ leading PIs ++ root element of serialize d *)
+Theorem C13_truncated_document_refused : forall tbl d evs n,
+  denote tbl d = Some evs -> (n < length (upto_root d))%nat ->
+  exists e, parse tbl (S n) (firstn n (serialize d)) = PErr e.
+Proof.
+  intros tbl d evs n. apply (truncated_refused tbl); [|exact typed_datetime_agree_proved].
+  intros l _ _. exact typed_wv_agree_proved.
+Qed.
+Print Assumptions C13_truncated_document_refused.
+
+(* ---- earlier forms of the global statement (kept for reference) ---- *)
+(* upto_root d = header ++ string table ++ leading PIs ++ root element of serialize d.
+   FULL for every table without a Wireless Village entry. *)
+Theorem C13_truncated_document_refused_non_wv : forall tbl,
+  forallb (fun l => negb ((l_id l =? 2301) || (l_id l =? 2302))) tbl = true ->
+  forall d evs n, denote tbl d = Some evs -> (n < length (upto_root d))%nat ->
+  exists e, parse tbl (S n) (firstn n (serialize d)) = PErr e.
+Proof.
+  intros tbl Hno d evs n. apply (truncated_refused tbl); [|exact typed_datetime_agree_proved].
+  intros l Hin Hwv. rewrite forallb_forall in Hno. specialize (Hno l Hin). rewrite Hwv in Hno. discriminate.
+Qed.
+Print Assumptions C13_truncated_document_refused_non_wv.
+
+(* every table; PARTIAL only in the premise on the WV typed decoders (see C04) *)
+Theorem C13_truncated_document_refused_partial : forall tbl,
+  (forall l, In l tbl -> (l_id l =? 2301) || (l_id l =? 2302) = true -> typed_wv_agree) ->
+  forall d evs n, denote tbl d = Some evs -> (n < length (upto_root d))%nat ->
+  exists e, parse tbl (S n) (firstn n (serialize d)) = PErr e.
+Proof. intros tbl Hwv d evs n. exact (truncated_refused tbl Hwv typed_datetime_agree_proved d evs n). Qed.
+Print Assumptions C13_truncated_document_refused_partial.
+
+(* the same for any proper prefix P (not only firstn of the full serialization) *)
+Theorem C13_proper_prefix_refused_partial : forall tbl,
+  (forall l, In l tbl -> (l_id l =? 2301) || (l_id l =? 2302) = true -> typed_wv_agree) ->
+  forall d evs P, denote tbl d = Some evs -> (exists Q, Q <> [] /\ upto_root d = P ++ Q) ->
+  exists e, parse tbl (S (length P)) P = PErr e.
+Proof. intros tbl Hwv d evs P. exact (parse_prefix_refused tbl Hwv typed_datetime_agree_proved d evs P). Qed.
+Print Assumptions C13_proper_prefix_refused_partial.
 
 (* ---- running out of bytes ---- *)
 Theorem C13_end_of_buffer_content_partial : forall f env n st, s_rest st = [] ->
